@@ -326,10 +326,25 @@ Theorem C09_cc_detect_calls : forall m now cpath, exists ls,
 Proof. exact PcProofs.detect_calls_spec. Qed.
 
 (* every call of every op carries the op's time where the API asks for "now": on_packet_sent the send
-   time, on_ack the receive time, on_packet_lost the detection time (this is the judge's clause) *)
+   time, on_ack the receive time, on_packet_lost the detection time, and every on_packet_ack range lies
+   inside one range of the frame the op delivers (this is the judge's clause) *)
 Theorem C09_cc_calls_time : forall m c a b d e f g,
-  Recovery.calls_ok (Recovery.op_now (Recovery.m_now m) c a e) (Recovery.calls_z (Recovery.mcalls m c a b d e f g)) = true.
+  Recovery.calls_ok (Recovery.op_now (Recovery.m_now m) c a e) (Recovery.op_ranges (Recovery.lastpn m) c b d e f)
+    (Recovery.calls_z (Recovery.mcalls m c a b d e f g)) = true.
 Proof. exact RecoveryJudgeProofs.mcalls_ok. Qed.
+
+(* what the manager reports to the Context (ACK manager, streams) as acknowledged in an ACK op: a packet
+   number is covered by a reported on_packet_ack range iff one of the frame's own ranges covers it --
+   nothing in a gap of the frame is ever reported acknowledged; the packets resolved as acknowledged are
+   exactly the unresolved sent packets those ranges cover; all other unresolved packets stay *)
+Theorem C09_acked_callbacks_exact : forall m now rs rx sp acked hulls,
+  Recovery.ack_ranges (Recovery.sentp m) rs = (sp, acked, hulls) ->
+  (forall pn, (exists k, In k (Recovery.range_calls rs now rx) /\ Recovery.k_kind k = 5 /\ Recovery.k_c k = now
+                         /\ Recovery.k_a k <= pn /\ pn <= Recovery.k_b k)
+              <-> (exists r, In r rs /\ fst r <= pn /\ pn <= snd r))
+  /\ (forall p, In p acked <-> In p (Recovery.sentp m) /\ exists r, In r rs /\ Recovery.in_range r p = true)
+  /\ (forall p, In p sp <-> In p (Recovery.sentp m) /\ forall r, In r rs -> Recovery.in_range r p = false).
+Proof. exact RecoveryProofs.acked_callbacks_exact. Qed.
 
 (* non-vacuity *)
 Example C09_example :
@@ -349,7 +364,7 @@ Example C09_manager_example :
                3; 100000; 3; 0; 0; 0; 0; 0;  5; 400000; 0; 0; 0; 0; 0; 0]%Z in
   Recovery.judge case (Recovery.run case) = true
   /\ firstn 3 (skipn (5 * 30 + 24) (Recovery.run case)) = [0; 1; 0]%Z
-  /\ firstn 4 (skipn (5 * 30 + 24 + 39) (Recovery.run case)) = [0; 2; 1; 2]%Z.
+  /\ firstn 4 (skipn (5 * 30 + 24 + 45) (Recovery.run case)) = [0; 2; 1; 2]%Z.
 Proof. vm_compute. repeat split; reflexivity. Qed.
 
 Print Assumptions C09_k_packet_threshold_is_3.
@@ -398,3 +413,4 @@ Print Assumptions C09_cc_lost_calls.
 Print Assumptions C09_cc_lost_calls_burst.
 Print Assumptions C09_cc_detect_calls.
 Print Assumptions C09_cc_calls_time.
+Print Assumptions C09_acked_callbacks_exact.
